@@ -4,6 +4,7 @@ package client
 
 import (
 	"errors"
+	ctypes "github.com/truora/minidyn/types"
 
 	"github.com/aws/aws-sdk-go-v2/aws"
 	"github.com/aws/aws-sdk-go-v2/service/dynamodb"
@@ -170,6 +171,48 @@ func VerifC14Isolation() {
 			nd.Assert(err == nil, "C14-delete-noerr")
 			same(g, "C14-returned-result-unchanged-by-later-writes")
 		}
+	}
+	nd.Reach("end")
+}
+
+// VerifC14KeyInputs: the Key (and the expression values) of an UpdateItem are caller-owned too. An UpdateItem
+// creates the item from its Key when none is stored: whether the update is applied by the built-in interpreter
+// or by a registered native updater, poking the Key and the values after the call changes nothing a later
+// read returns - on a created and on an updated item.
+func VerifC14KeyInputs() {
+	c := vClient(false)
+	v := vspec.GenTree("a", 0, 1)
+	native := nd.Choice("native-updater", 2) == 1
+	if native {
+		nd.Reach("native-updater")
+		c.ActivateNativeInterpreter()
+		c.GetNativeInterpreter().AddUpdater(vTbl, "SET a = :a", func(item, attrs map[string]*ctypes.Item) { item["a"] = attrs[":a"] })
+	}
+	if nd.Choice("item-present", 2) == 1 {
+		nd.Assert(vPut(c, vItem{"p": vS("k"), "z": vS("z")}) == nil, "C14-put-noerr")
+	} else {
+		nd.Reach("created-by-update")
+	}
+	key := vItem{"p": vS("k")}
+	vals := vItem{":a": vToAV(v)}
+	out, err := c.UpdateItem(vCtx, &dynamodb.UpdateItemInput{TableName: aws.String(vTbl), Key: key, UpdateExpression: aws.String("SET a = :a"),
+		ExpressionAttributeValues: vals, ReturnValues: types.ReturnValueAllNew})
+	nd.Assert(err == nil, "C14-update-noerr")
+	vPokeItem(key)
+	vPokeItem(vals)
+	if err == nil {
+		vPokeItem(out.Attributes)
+	}
+	it, gerr := vGet(c, vItem{"p": vS("k")})
+	nd.Assert(gerr == nil, "C14-get-noerr")
+	p, _ := vGetS(it, "p")
+	got, ok := it["a"]
+	nd.Assert(p == "k" && ok && vSameAV(v, got), "C14-update-key-and-values-not-shared")
+	all := vScanAll(c)
+	nd.Assert(len(all) == 1, "C14-one-item")
+	if len(all) == 1 {
+		sp, _ := vGetS(all[0], "p")
+		nd.Assert(sp == "k", "C14-stored-key-not-shared")
 	}
 	nd.Reach("end")
 }
